@@ -1067,6 +1067,16 @@ func (f *File) Cleanup() {
 			r.Rationale = parseDirectiveComment(nil, r.Syntax)
 		}
 	}
+	// Likewise for the other comments that carry meaning: the indirect
+	// marker of a requirement and the deprecation notice of the module.
+	for _, r := range f.Require {
+		if r.Syntax != nil && !r.Syntax.InBlock {
+			r.Indirect = isIndirect(r.Syntax)
+		}
+	}
+	if f.Module != nil && f.Module.Syntax != nil && !f.Module.Syntax.InBlock {
+		f.Module.Deprecated = parseDeprecation(nil, f.Module.Syntax)
+	}
 }
 
 func (f *File) AddGoStmt(version string) error {
